@@ -8,7 +8,7 @@ use crate::val::Val;
 pub const U64MAX: u64 = u64::MAX;
 
 pub fn ent(len: u64) -> EntityCfg {
-    EntityCfg { len, etag: None, mtime_ns: None, hdrs: vec![], recipes: vec![], default_recipe: vec![Op::RestOrFault], split: false, mtime_before_epoch: false }
+    EntityCfg { len, etag: None, mtime_ns: None, hdrs: vec![], recipes: vec![], default_recipe: vec![Op::RestOrFault], split: false, mtime_before_epoch: false, volatile_hdrs: false }
 }
 
 pub fn case(ent: EntityCfg, method: &str, headers: Vec<(String, Vec<u8>)>, class: String) -> ServeCase {
@@ -20,6 +20,11 @@ pub fn case(ent: EntityCfg, method: &str, headers: Vec<(String, Vec<u8>)>, class
     static COUNTER: std::sync::atomic::AtomicU64 = std::sync::atomic::AtomicU64::new(0);
     if COUNTER.fetch_add(1, std::sync::atomic::Ordering::Relaxed) % 2 == 1 {
         hints.push(Val::L(vec![Val::N(8), Val::N(1)]));
+    }
+    // one case in four: an entity whose add_headers answers differently every time it is asked (hint 11)
+    static HCOUNTER: std::sync::atomic::AtomicU64 = std::sync::atomic::AtomicU64::new(0);
+    if HCOUNTER.fetch_add(1, std::sync::atomic::Ordering::Relaxed) % 4 == 2 {
+        hints.push(Val::L(vec![Val::N(11), Val::N(1)]));
     }
     // two cases in five: the request is not an HTTP/1.1 request (hint 10: 0 = HTTP/0.9, 1 = 1.0, 2 = 2, 3 = 3);
     // nothing in serve() may depend on the version
